@@ -130,6 +130,11 @@ func (e *Exec) evalIdent(st *State, n *ast.Ident) Value {
 			}
 			panic(unsupported("package-level variable " + o.Name() + " of type " + o.Type().String()))
 		}
+		if e.lazyCaptures {
+			c := e.cellFor(o)
+			st.store[c] = e.symbolicValue(st, o.Type(), o.Name())
+			return st.store[c]
+		}
 		panic(unsupported("unbound variable " + o.Name()))
 	case *types.Func:
 		return Scalar{mkApp("func!"+o.FullName(), SInt), o.Type()}
